@@ -132,3 +132,32 @@ class X:
             if ev[0] == "api" and ev[1] in ("force_quit", "raise_exit"):
                 return True
         return self.obs["outcome"][0] in ("killed", "returned", "raised", "fuel")
+
+
+def lost_signals(case, obs, ideal=False):
+    """held - never dropped: a user signal (source registered nowhere, class with handlers) enqueued into a level that is the innermost one when the run has become
+    quiescent (blocked on an empty queue, nothing stopped it) must have been dispatched. With ideal=True (programs without screens) the level structure is
+    reconstructed from the API calls alone (execute_new_loop opens a level, a returned close_loop closes the innermost one), not read from the implementation."""
+    x = X(case, obs)
+    if obs["outcome"][0] != "blocked": return None
+    if any(ev[0] == "api" and ev[1] in ("force_quit", "raise_exit") for i, ev, ctx in x.events()): return None
+    dispatched = {ev[2] for i, ev, ctx in x.events() if ev[0] == "H"}
+    targets = {}
+    if ideal:
+        if case.get("screens"): return None
+        levels = [0]; nxt = 1
+        for i, ev, ctx in x.events():
+            if ev[0] == "api" and ev[1] == "new_loop": levels.append(nxt); nxt += 1
+            if ev[0] == "api<" and ev[1] == "close_loop" and len(levels) > 1: levels.pop()
+            if ev[0] == "api" and ev[1] == "enq" and ev[4] is None and x.cls_handlers.get(ev[2]): targets[ev[5]] = levels[-1]
+        final = levels[-1]
+    else:
+        for i, ev, ctx in x.events():
+            if ev[0] == "api" and ev[1] == "enq" and ev[4] is None and x.cls_handlers.get(ev[2]) and "lvl" in ctx: targets[ev[5]] = ctx["lvl"]
+        final = next((c["lvl"] for e, c in reversed(x.x) if "lvl" in c), None)
+        end_levels = next((c["levels"] for e, c in reversed(x.x) if "levels" in c), [])
+        if final is None or (end_levels and end_levels[-1] != final): return None
+    for sid, lvl in targets.items():
+        if lvl == final and sid not in dispatched:
+            return "signal %d was enqueued into the loop level that is the innermost one now, the run is quiescent and nothing stopped it, but the signal was never dispatched (lost)" % sid
+    return None
